@@ -270,6 +270,9 @@ EXEC_SCRIPTS = {
     "branch-bound-list-alias-in-helper": "day = [1, 2]\nnight = [4, 5]\ndef pick(k):\n    if k % 2 == 0:\n        sel = day\n    else:\n        sel = night\n    return sel[0]\nk = 0\nwhile True:\n    v = pick(k)\n    mon.write(v)\n    k = k + 1\n    sleep(1)\n",
     "remove-falsy-values-then-last-element": "xs = [0, 1, 2, 0, 3]\nxs.remove(0)\nmon.write(xs[len(xs) - 1])\nmon.write(xs[0])\nys = [5, 0, 6]\nz = 0\nys.remove(z)\nmon.write(ys[len(ys) - 1])\nfor i in range(len(ys)):\n    mon.write(ys[i])\n",
     "remove-duplicates-removes-first-only": "xs = [1, 2, 1, 3, 1]\nxs.remove(1)\nmon.write(xs[0])\nmon.write(xs[1])\nmon.write(xs[3])\nwhile True:\n    xs.append(1)\n    xs.remove(1)\n    mon.write(xs[0] + xs[3])\n    sleep(1)\n",
+    "parameter-shadows-global-list": "data = [1, 2, 3, 4]\ndef last(data):\n    return data[len(data) - 1]\nfew = [7, 8]\nwhile True:\n    v = last(few)\n    mon.write(v)\n    w = last(data)\n    mon.write(w)\n    sleep(1)\n",
+    "rebind-list-in-branch-then-folded-len": "a = [1, 2, 3]\nc = 1\nif c > 0:\n    a = [4, 5]\nmon.write(a[len(a) - 1])\n",
+    "rebind-list-after-use-in-main-loop": "a = [1, 2, 3]\nwhile True:\n    mon.write(a[len(a) - 1])\n    a = [9, 8]\n    sleep(1)\n",
     "comprehension-then-index": "while True:\n    sq = [i * i for i in range(5)]\n    mon.write(sq[4])\n    mon.write(sq[-1])\n    sleep(1)\n",
     "list-passed-through-helper-index": "xs = [4, 5, 6]\ndef at(k):\n    return xs[k]\nj = 0\nwhile True:\n    v = at(j % 3)\n    mon.write(v)\n    j = j + 1\n    sleep(1)\n",
     "remove-until-short": "xs = [1, 2, 3, 4, 5, 6, 7]\nwhile True:\n    xs.remove(xs[0])\n    mon.write(xs[0])\n    mon.write(xs[-1])\n    sleep(1)\n",
